@@ -49,6 +49,38 @@ def classify_max(e: ast.AST) -> Optional[str]:
     return None
 
 
+def max_aff(e: ast.AST) -> Optional[Tuple[Aff, str]]:
+    """(affine form, kind) of `max(a * q(t) + b for t in ..)` with a > 0 and q one of the three
+    index quantities: the maximum of an increasing affine function of q is that function of
+    the maximum of q (`max(t.num_states() - 1 for ..)` = S - 1)"""
+    k = classify_max(e)
+    if k:
+        return Aff.sym(k), k
+    if not (isinstance(e, ast.Call) and src(e.func) == 'max' and len(e.args) == 1 and
+            isinstance(e.args[0], (ast.GeneratorExp, ast.ListComp))
+            and len(e.args[0].generators) == 1 and not e.args[0].generators[0].ifs):
+        return None
+
+    def leaf(x: ast.AST) -> Optional[Aff]:
+        t = src(x)
+        if t.endswith('.type_index()'):
+            return Aff.sym('T')
+        if t.endswith('.num_states()'):
+            return Aff.sym('S')
+        if t.endswith('.value'):
+            return Aff.sym('C')
+        return None
+    try:
+        a = aff_of(e.args[0].elt, leaf)
+    except NonAffine:
+        return None
+    if len(a.c) == 1:
+        (sym, coef), = a.c.items()
+        if coef > 0:
+            return a, sym
+    return None
+
+
 def lexmax_component(e: ast.AST, i: int) -> Optional[Aff]:
     """component i of `max((a(t), b(t)) for t in ..)`: the maximum of tuples is
     lexicographic, so component 0 is the maximum of a, but component 1 is b at the arg-max
@@ -107,11 +139,11 @@ def channels(f: Func, index: Optional[RepoIndex] = None,
     origins: Dict[str, str] = {}
     for name, ds in w.defs.items():
         if len(ds) == 1 and ds[0][0] == 'value':
-            k = classify_max(ds[0][1])
-            if k:
-                env[name] = Aff.sym(k)
+            ma = max_aff(ds[0][1])
+            if ma:
+                env[name] = ma[0]
                 it = ds[0][1].args[0].generators[0].iter
-                origins[k] = src(it)
+                origins[ma[1]] = src(it)
     gp = [a.arg for a in f.node.args.args]
 
     def leaf(e: ast.AST, _depth=[0]) -> Optional[Aff]:
@@ -165,9 +197,9 @@ def channels(f: Func, index: Optional[RepoIndex] = None,
         if isinstance(e, ast.Attribute) and e.attr == 'value' and \
                 isinstance(e.value, ast.Attribute) and e.value.attr == 'color':
             return Aff.sym('c')
-        k = classify_max(e)
-        if k:
-            return Aff.sym(k)
+        ma = max_aff(e)
+        if ma:
+            return ma[0]
         return None
 
     rets = [e for e in w.events if e.kind == 'return' and e.value is not None]
